@@ -1,5 +1,5 @@
 (* Properties/C14.v — a build succeeds iff no !required placeholder survives merging. *)
-From AY Require Import Model.Eval Proofs.EvalInv Proofs.Walk Proofs.NodeInd.
+From AY Require Import Model.Merge Model.Eval Proofs.EvalInv Proofs.Walk Proofs.NodeInd Proofs.Frame Proofs.FrameRequired.
 
 (* the scan reports exactly the paths of the placeholders of the tree — at top level, in nested mappings, lists and the
    arguments of call/bind nodes alike (the walk treats every container kind uniformly) — and each reported path resolves back to it *)
@@ -31,6 +31,33 @@ Proof.
   - intros H e p He. unfold config in He. rewrite H in He. exact (proj1 (ev_err _ _ _ _ _ _ _ _ _ _ He)).
 Qed.
 Print Assumptions C14_iff.
+
+(* "A placeholder overwritten ... by any later stage does not count" (extension round 7), on the GENERAL merge (any tags, priorities, marks and
+   metadata elsewhere in both trees): when the older tree holds a !required placeholder at the mapping path q ([dget]) and the newer tree
+   reaches a value v there through non-deleting mappings with unique keys ([nreach]), v of equal or higher priority and not itself !del,
+   then the merged tree holds at q a node of v's kind - a placeholder only if v is one.  (The deleting case - the key disappears - is
+   covered by the scan theorems above applied to the merged tree, and by the correspondence.) *)
+Theorem C14_overwritten_placeholder_does_not_count : forall q fuel p s o r w v f0 v0,
+  q <> [] -> on_merge [] fuel p s o = Ok (r, w) -> nreach o q v -> dget s q = Some (Leaf LRequired f0 v0) ->
+  has_priority_over (Leaf LRequired f0 v0) v false = false -> explicit_delete v = false ->
+  exists c', dget r q = Some c' /\ is_required c' = is_required v.
+Proof. exact placeholder_overwritten. Qed.
+Print Assumptions C14_overwritten_placeholder_does_not_count.
+
+(* non-vacuity: a placeholder two levels down, beside a !force sibling, overwritten by the second stage; the scan of the merged tree is empty *)
+Example C14_overwritten_example :
+  let R := Leaf LRequired F0 SNone in
+  let L v := Leaf LScalar F0 (SInt v) in
+  let D f ch := Comp CDict f SNone ch in
+  let s := D F0 [(KS 1, D F0 [(KS 2, R); (KS 3, L 3)]); (KS 4, Leaf LScalar (set_prio F0 (Some 1)) (SInt 4))] in
+  let o := D F0 [(KS 1, D F0 [(KS 2, L 7)])] in
+  check_missing s = [[KS 1; KS 2]] /\ nreach o [KS 1; KS 2] (L 7) /\ dget s [KS 1; KS 2] = Some R /\
+  (match on_merge [] 10 [] s o with Ok (r, _) => Some (check_missing r) | _ => None end) = Some [].
+Proof.
+  cbn zeta. split; [vm_compute; reflexivity|]. split; [|split; vm_compute; reflexivity].
+  cbn. repeat split; try reflexivity;
+    repeat (constructor; cbn [map fst In]; try (intros [E|E]; [discriminate E|]); try tauto).
+Qed.
 
 Example C14_example :
   let R := Leaf LRequired F0 SNone in
